@@ -404,6 +404,10 @@ def _fl(v):
     return float(v)
 
 
+def _both_int(a, b):
+    return isinstance(a, (int, _np.integer)) and isinstance(b, (int, _np.integer)) and not isinstance(a, bool) and not isinstance(b, bool)
+
+
 class Prop:
     def __init__(self, kind, *args):
         self.kind, self.args = kind, args
@@ -462,6 +466,9 @@ class Prop:
             if _is_inf(a[0]) or _is_inf(a[1]):
                 x, y = float(a[0]), float(a[1])
                 return x <= y if k == "le" else x < y if k == "lt" else x == y
+            if _both_int(a[0], a[1]):  # integers (timestamps, counts) are compared exactly
+                x, y = int(a[0]), int(a[1])
+                return x <= y if k == "le" else x < y if k == "lt" else x == y
             t, x, y = self._tol()
             return x <= y + t if k in ("le", "lt") else abs(x - y) <= t
         if k == "not":
@@ -479,6 +486,9 @@ class Prop:
         if k in ("le", "lt", "eq"):
             if _is_inf(a[0]) or _is_inf(a[1]):
                 x, y = float(a[0]), float(a[1])
+                return x <= y if k == "le" else x < y if k == "lt" else x == y
+            if _both_int(a[0], a[1]):
+                x, y = int(a[0]), int(a[1])
                 return x <= y if k == "le" else x < y if k == "lt" else x == y
             t, x, y = self._tol()
             return x <= y - t if k in ("le", "lt") else x == y
